@@ -96,6 +96,9 @@ def _ops(ctx, kind):
         "drop_invalid": lambda s, o: s.drop_invalid(),
         "interp_time": lambda s, o: s.interpolate({"time": np.array([C.T0 + 1800])}),
         "interp_freq": lambda s, o: s.interpolate_frequency(ctx.const(np.array([0.09375, 0.15625]))),
+        "interp_same_freq": lambda s, o: s.interpolate_frequency(s.frequency.values),
+        "interp_same_time": lambda s, o: s.interpolate({"time": s.time.values}),
+        "interp_same_freq_da": lambda s, o: s.interpolate_frequency(s.frequency),
         "moments": lambda s, o: (s.hm0(), s.tm01(), s.peak_index(), s.m0(0.0625, 0.5)),
     }
     if kind == "2d":
